@@ -1,5 +1,9 @@
 import MicroHttp.Props.C06
+import MicroHttp.Props.C06IO
 #print axioms MicroHttp.C06.pending_iff
 #print axioms MicroHttp.C06.enqueue_unsent
 #print axioms MicroHttp.C06.tryWrite_spec
 #print axioms MicroHttp.C06.history_prefix
+#print axioms MicroHttp.C06.read_preserves_unsent
+#print axioms MicroHttp.C06.pop_preserves_unsent
+#print axioms MicroHttp.C06.history_prefix_io
